@@ -168,13 +168,24 @@ def p1_exec (ctx, c):
   worker.close_handler = lambda w: closes.append(1)
   pinger = loop.pinger
   gen = loop.run()
-  st = dict(sel=None, alive=True, started=False, ops=0)
+  st = dict(sel=None, alive=True, started=False, ops=0, connects=0)
   queued = []
   ops = [(a, MSGS[i]) for i, a in enumerate(c["api"])]
   if c.get("sd") is not None: ops.insert(c["sd"], ("shutdown", None))     # worker.shutdown() after c["sd"] sends
   if c.get("close"): ops.append(("close", None))
   hist = []
   sd = dict(pending=None)        # were bytes still unsent when shutdown() was requested?
+  if c.get("conn"):
+    # a worker that is still connecting (as ctl.py / PersistentIOWorker create them): the connect completes on the
+    # loop's first pass over it (socket.recv(1, MSG_PEEK) answers EAGAIN = connected), which runs the connect
+    # handler; the handler may itself queue a message.  What was buffered before is decided by the interleaving.
+    worker._connecting = True
+    def on_connect (w):
+      st["connects"] += 1
+      if c["conn"] != "none":
+        queued.append(MSGS[3]); hist.append(("connect-handler:" + c["conn"], MSGS[3]))
+        (w.send if c["conn"] == "send" else w.send_fast)(MSGS[3])
+    worker.connect_handler = on_connect
 
   def answer ():
     sel = st["sel"]
@@ -212,6 +223,10 @@ def p1_exec (ctx, c):
       exc = [r for r in _LOG.records if r[0] == "exception"]
       where = "%s:%s" % (exc[-1][1], exc[-1][2]) if exc else "?"
       return ("loop-died:" + where, "RecocoIOLoop.run ended (%s); calls %r" % (where, sock.calls))
+    exc = [r for r in _LOG.records if r[0] == "exception"]
+    if exc:
+      return ("logged-exception:%s:%s" % (exc[0][1], exc[0][2]), "an exception was caught and logged inside the worker: %s at %s (socket calls %r)"
+              % (exc[0][2], exc[0][1], sock.calls))
     closed_by_client = c.get("close") and ("close", None) in hist
     wr = [x for x in sock.shut if x[0] in (_socket.SHUT_WR, _socket.SHUT_RDWR)]
     if wr:
@@ -279,7 +294,7 @@ def p1_exec (ctx, c):
     bad = check()
   try: gen.close()
   except Exception: pass
-  obs = dict(api=list(c["api"]), close=bool(c.get("close")), sd=c.get("sd"), shutdowns=list(sock.shut), history=["%s %s" % (h[0], h[1].decode() if h[1] else "") if isinstance(h, tuple) else h for h in hist],
+  obs = dict(api=list(c["api"]), close=bool(c.get("close")), sd=c.get("sd"), conn=c.get("conn"), connect_handler_runs=st["connects"], shutdowns=list(sock.shut), history=["%s %s" % (h[0], h[1].decode() if h[1] else "") if isinstance(h, tuple) else h for h in hist],
              socket_calls=list(sock.calls), accepted=sock.accepted, close_handler_runs=len(closes), socket_closed=sock.closed,
              send_buf=worker.send_buf, steps=st["ops"])
   return bad, obs
@@ -296,12 +311,15 @@ def p1_configs (cfg):
       cs.append(dict(part=1, api=a, close=close, sd=None, calls=6, bound=cfg.pick(2, 3)))
     for sd in cfg.pick((3, 1), (3, 2, 1, 0)):       # worker.shutdown() after that many sends
       cs.append(dict(part=1, api=a, close=False, sd=sd, calls=6, bound=cfg.pick(2, 3)))
+    for conn in ("none", "send", "fast"):           # connecting worker; what its connect handler queues
+      cs.append(dict(part=1, api=a, close=False, sd=None, conn=conn, calls=6, bound=cfg.pick(2, 3)))
   return cs
 
 
 def p1_name (c):
-  return "p1/%s%s%s" % ("-".join(c["api"]), "/close" if c.get("close") else "",
-                        "" if c.get("sd") is None else "/shutdown-after-%d" % c["sd"])
+  return "p1/%s%s%s%s" % ("-".join(c["api"]), "/close" if c.get("close") else "",
+                          "" if c.get("sd") is None else "/shutdown-after-%d" % c["sd"],
+                          "/connecting(handler-%s)" % c["conn"] if c.get("conn") else "")
 
 
 def p1_worker (c):
@@ -310,7 +328,7 @@ def p1_worker (c):
     bad, obs = res
     rep.evaluations += 1
     rep.transitions += obs["steps"]
-    rep.outcome(("p1", obs["api"], obs["close"], obs["sd"], obs["shutdowns"], obs["history"], obs["socket_calls"], obs["accepted"], obs["close_handler_runs"], bad and bad[0]))
+    rep.outcome(("p1", obs["api"], obs["close"], obs["sd"], obs["conn"], obs["shutdowns"], obs["history"], obs["socket_calls"], obs["accepted"], obs["close_handler_runs"], bad and bad[0]))
     if rep.evaluations % 997 == 1: rep.sample(dict(part=1, **obs))
     if bad:
       rep.violation("%s:p1:%s" % (PID, bad[0]), "%s [%s]" % (bad[1], p1_name(c)),
@@ -784,7 +802,9 @@ def run (cfg):
   for r in pmap(p2_worker, level, cfg.workers, seed=cfg.seed):
     rep.merge(r)
   rep.rule = ("part 1: real RecocoIOWorker in a hand-driven RecocoIOLoop.run() generator; messages %r queued with every listed "
-              "send/send_fast combination (variants: close() at the end; worker.shutdown() after 0..3 of the sends); every interleaving "
+              "send/send_fast combination (variants: close() at the end; worker.shutdown() after 0..3 of the sends; a worker that is "
+              "still connecting, whose connect handler queues nothing / send(m4) / send_fast(m4) when the connect completes on the loop's first "
+              "pass, with 0..3 messages buffered before); every interleaving "
               "of client calls and loop iterations; every script of socket.send outcomes {accept all, accept 1, accept n-1, accept "
               "ceil(n/2), EAGAIN, EPIPE} over the first 6 "
               "send calls with <= %d non-default outcomes.  part 2: real of_01.Connection.send on a controlled cooperative thread "
